@@ -270,9 +270,11 @@ CLAIMED.update({
          '(lemma first, then the further forms with id and script), every sense navigates to the word and synset the document '
          'names, Word.senses() and Synset.senses() give document order resp. the declared member order, and every sense and synset '
          'reports the document\'s examples, counts, frames, adjposition, lexicalized flag, first definition, ILI (real or proposed) '
-         'and lexfile; for an extension adding a sense to a base entry the base word lists it; each hypothesis is shown necessary '
+         'and lexfile, Synset.words()/lemmas() follow the member order, get_related (one relation type) lists the document\'s '
+         'targets in order, each once; for an extension adding a sense or examples to base elements the base word/sense/synset '
+         'shows them; each hypothesis is shown necessary '
          'by a witness, and hypotheses and conclusions are evaluated on databases recorded from the implementation. Partial: '
-         'tags, pronunciations and all metadata (the bridge drops metadata cells), relations through the API, several new lexicons '
+         'tags, pronunciations and all metadata incl. relation dc:type (the bridge drops metadata cells), several new lexicons '
          'at once and default mode are covered row-wise (document -> rows) and by the oracle on the real code, not by a composed '
          'theorem. Known finding F3.',
          ADD_TRUST, 'DESIGN.md section 5 C01, Appendix E'),
